@@ -664,6 +664,8 @@ def run(repo, chk):
     ok = any("x.name not in _valid_hashvars" in c and "x.name.startswith('#')" in c for _, c, n in facts_of(pr).starting("problems.append("))
     chk.ob("R18.3", "selector.Call.problems:unknown-meta-variable", ok, pr.where, "an unknown #meta variable is reported at verification (activation)")
     at = repo.func("overlay.autotool")
+    from .shared import tag_table_read_obligations
+    tag_table_read_obligations(repo, chk, "R18.3", "a selector with a second focus and no first one is refused every time it is compiled, not only the first time")
     chk.ob("R18.3", "overlay.autotool:verify-reached", any(isinstance(c, ast.Call) and is_name(c.func, "verify") for c in ast.walk(at.node)), at.where, "activation verifies the selector (see C10 R10.5)")
 
     # ---------------- R18.4
